@@ -327,7 +327,7 @@ func NewExplorer(property string, body func(*Ctx), b Bounds, shard, nshards, sha
 		shardDepth = 1
 	}
 	return &Explorer{Property: property, Body: body, Bounds: b, Stats: newStats(), shard: shard, nshards: nshards,
-		shardDepth: shardDepth, maxSamples: 6, maxViol: 40, selfCheck: 50, Repass: 500}
+		shardDepth: shardDepth, maxSamples: 6, maxViol: 40, selfCheck: 300, Repass: 500}
 }
 
 type execResult struct {
